@@ -162,7 +162,7 @@ def run_shard(spec, tier, seed):
                             continue
                         err = E.rel_error(op, got, exp.rv, unit, gain)
                 else:
-                    err = E.rel_error(op, got, exp, unit, gain)
+                    err = E.rel_error(op, got, exp, unit, gain) / E.cond_gain(op, self_l, args, ACCEPT)
                 if err > VIOLATE:
                     km = knownmech.classify(op, self_l, args, got_scalar_is_zero=(op.result != "vec" and got == 0))
                     if km:
